@@ -302,7 +302,8 @@ def walk_stmts(body: list):
 
 
 def assigned_in(body: list) -> set:
-    return {s["name"] for s in walk_stmts(body) if s["k"] in ("assign", "aug", "for")}
+    return {s["name"] for s in walk_stmts(body) if s["k"] in ("assign", "aug", "for")} | \
+        {n for s in walk_stmts(body) if s["k"] == "chain" for n in s["names"]}
 
 
 def reads_of(body: list) -> set:
@@ -338,8 +339,8 @@ def depends_on(body: list) -> dict:
     """name -> every name its value may be computed from (transitively, through the assignments of the body)."""
     dep: dict = {}
     for s in walk_stmts(body):
-        if s["k"] == "assign":
-            dep.setdefault(s["name"], set()).update(x["name"] for x in walk_exprs(s["e"]) if x["k"] == "var")
+        for nm in ([s["name"]] if s["k"] == "assign" else s["names"] if s["k"] == "chain" else []):
+            dep.setdefault(nm, set()).update(x["name"] for x in walk_exprs(s["e"]) if x["k"] == "var")
     changed = True
     while changed:
         changed = False
@@ -404,6 +405,7 @@ CONSTANTS
     IteOn = {ite}
     CallOn = {calls}
     AugOn = {aug}
+    ChainOn = {chain}
     LoopOn = {loop}
     MaxToks = 100
     MinStmts = {minst}
@@ -420,21 +422,21 @@ INVARIANTS EmitLib PWTheorem LibTheorem WellFormedAlways
 PROFILES = {
     # every construct the translator claims to support, shallow expressions: control flow dominates
     "core1": dict(arities="{1, 2}", locals='{"y"}', consts='{"K"}', un='{"neg"}', bin='{"add", "sub", "mul", "div"}',
-                  chains="TRUE", boolon="{}", ite="TRUE", calls='{"sub2", "pick", "loc", "ratio"}', minst=2, depth=1, aug="{}", loop="FALSE"),
+                  chains="TRUE", boolon="{}", ite="TRUE", calls='{"sub2", "pick", "loc", "ratio"}', minst=2, depth=1, aug="{}", loop="FALSE", chain="FALSE"),
     "core2": dict(arities="{1, 2}", locals='{"y", "z"}', consts='{"K", "H"}', un='{"neg"}',
                   bin='{"add", "sub", "mul", "div", "pow"}', chains="TRUE", boolon="{}", ite="TRUE",
                   calls='{"sub2", "subxy", "pick", "loc", "nest", "kmul", "ratio"}', minst=3, depth=2, aug="{}",
-                  loop="FALSE"),
+                  loop="FALSE", chain="FALSE"),
     # just outside the subset: assignment to a parameter, augmented assignment, while / for loops (must be refused)
     "outside": dict(arities="{1, 2}", locals='{"y", "a"}', consts='{"K"}', un='{"neg"}', bin='{"add", "sub", "mul"}',
                     chains="FALSE", boolon="{}", ite="FALSE", calls='{"sub2"}', minst=3, depth=1,
-                    aug='{"add", "mul", "sub"}', loop="TRUE"),
+                    aug='{"add", "mul", "sub"}', loop="TRUE", chain="TRUE"),
     # the whole grammar (min / max / abs / and / or / not are refused by the translator today)
     "full": dict(arities="{2, 3}", locals='{"y", "z"}', consts='{"K", "H"}', un='{"neg", "abs"}',
                  bin='{"add", "sub", "mul", "div", "pow", "floordiv", "mod", "min", "max"}', chains="TRUE",
                  boolon='{"and", "or", "not"}', ite="TRUE",
                  calls='{"sub2", "subxy", "pick", "loc", "nest", "kmul", "ratio"}', minst=2, depth=2,
-                 aug='{"add"}', loop="TRUE"),
+                 aug='{"add"}', loop="TRUE", chain="TRUE"),
 }
 
 
@@ -455,7 +457,7 @@ def generate(ctx: Ctx, rep: Report) -> tuple[list[dict], dict, dict]:
     runs = []
     if ctx.quick:
         runs.append(("Translate_small.cfg", None, "exhaustive: all programs <= 3 statements, <= 6 expression nodes"))
-        sims = [("core1", 40), ("core2", 25), ("outside", 15), ("full", 12)]
+        sims = [("core1", 40), ("core2", 25), ("outside", 20), ("full", 12)]
     else:
         runs.append(("Translate_medium.cfg", None, "exhaustive: all programs <= 3 statements, <= 7 expression nodes"))
         sims = [("core1", 240), ("core2", 160), ("outside", 80), ("full", 80)]
